@@ -54,6 +54,9 @@ func SwarmParams(r *simrt.Rng) Params {
 
 // G is a generator bound to one PRNG.
 type G struct {
+	// ZeroUnionKeys allows list keys that are a union holding the zero value of its member
+	// type (only the ordered-map check on its own package asks for them)
+	ZeroUnionKeys bool
 	R *simrt.Rng
 	P Params
 	inOrdered int
@@ -67,7 +70,7 @@ func New(r *simrt.Rng, p Params) *G {
 	// revisit values), plus a few that are valid but unusual as list keys and leaf values:
 	// a colon (module-prefix look-alike), a slash, '=', a space, a dot, a leading digit
 	return &G{R: r, P: p, Strs: []string{"a", "b", "c", "ab", "xyz", "q", "foo", "k", "a", "b", "c", "ab",
-		"65000:100", "eth0:1", "ge-0/0/1", "k=v", "x y", "1.2.3.4", "9lives", "ab:cd:ef", "7", "123", "007", "true"}}
+		"65000:100", "eth0:1", "ge-0/0/1", "k=v", "x y", "1.2.3.4", "9lives", "ab:cd:ef", "7", "123", "007", "true", "AB12", "X9"}}
 }
 
 func (g *G) chance(p float64) bool {
@@ -711,7 +714,7 @@ func (g *G) NewEntry(et reflect.Type, keyType reflect.Type, listSch *yang.Entry,
 			// leaves); as a key that would only repeat the same finding in every list property
 			switch ev := v.Elem(); ev.Kind() {
 			case reflect.Bool, reflect.String, reflect.Int8, reflect.Int16, reflect.Int32, reflect.Int64, reflect.Uint8, reflect.Uint16, reflect.Uint32, reflect.Uint64, reflect.Float64:
-				if ev.IsZero() {
+				if ev.IsZero() && !g.ZeroUnionKeys {
 					return e, reflect.Value{}, false
 				}
 			}
